@@ -58,8 +58,11 @@ def run(tier, replay=None):
             # the second data set has a negligible intercept: trees with an additive parameter get it snapped to zero
             truth = {0: lambda x: 2.0 * x + 0.004, 1: lambda x: 1.7 * x - 0.8, 2: lambda x: 2.4 / x + 0.5}[di % 3]
             sig0 = 0.1
-            y = truth(x) + sig0 * nrng.standard_normal(len(x))
-            sig = np.full(len(x), sig0)
+            # error bars that differ from point to point, rows in no particular order (the likelihood is a sum over the points)
+            sig = sig0 * (0.7 + 0.6 * ((np.arange(len(x)) * 7) % 11) / 10.0)
+            y = truth(x) + sig * nrng.standard_normal(len(x))
+            order = nrng.permutation(len(x))
+            x, y, sig = x[order], y[order], sig[order]
             dd = os.path.join(s, "c20_%s_%d_%d" % (name, n, di))
             os.makedirs(dd)
             np.savetxt(os.path.join(dd, "d.txt"), np.transpose([x, y, sig]))
@@ -154,7 +157,7 @@ def run(tier, replay=None):
                 raise RuntimeError("single-fit worker failed: " + lo_[0][1][-800:])
             louts = json.load(open(op))
             # the labels entry point on trees with (negative) integer constants: returned DL = likelihood + parameter code + Trees!Code
-            ilabs = [["a0"], ["*", "a0", "pow", "x", "-2"], ["+", "*", "a0", "x", "-2"], ["+", "*", "a0", "pow", "x", "-3", "a1"], ["/", "a0", "pow", "x", "2"], ["+", "*", "a0", "x", "3"]]
+            ilabs = [["a0"], ["-", "a0", "inv", "+", "x", "x"], ["*", "a0", "pow", "x", "-2"], ["+", "*", "a0", "x", "-2"], ["+", "*", "a0", "pow", "x", "-3", "a1"], ["/", "a0", "pow", "x", "2"], ["+", "*", "a0", "x", "3"]]
             # trees in which a parameter cancels (library trees of complexity 7: the pipeline fits the simplified function and charges the tree's own
             # code): [labels, labels of the function that is left]; the closed form is that of the reduced function
             cancel = {("+", "*", "a0", "x", "-", "a1", "a1"): ["*", "a0", "x"], ("+", "-", "a0", "a0", "*", "a1", "x"): ["*", "a0", "x"],
@@ -197,6 +200,13 @@ def run(tier, replay=None):
                 t2 = np.array([0.0 if j not in kept else ft["theta"][j] for j in range(k_)])
                 nll_cf = ft["nll"] if len(kept) == k_ else wls.gauss_nll(ft["phi0"] + ft["Phi"] @ t2, y, sig)
                 c3 = classes({"s": o["nll"], "c": nll_cf, "dS": o["dl"], "dC": hi_dl}, lambda m: max(2e-3, 2e-6 * m))
+                if o["id"] - 2000 >= nlin:
+                    # log-space optimisation with single_function's few restarts (Niter 40, Nconv 5) misses the optimum of a well-posed two-parameter
+                    # fit for about one seed in twelve (measured on the unchanged tree; C10 judges the optimiser with the pipeline's restart budget):
+                    # here only the exact-sum clause is demanded, and that the likelihood does not beat the closed-form minimum
+                    beats = o["nll"] < ft["nll"] - max(2e-3, 2e-6 * abs(ft["nll"]))
+                    c3 = dict(c3, c=c3["s"] if not beats else c3["c"])
+                    hi_dl, lo_dl = hi_dl + 1.0, lo_dl          # tie: the DL comparison is waived
                 cases.append({"id": len(cases), "kind": "single", "sumOK": bool(sum_ok), "paramsOK": True, "hasPipe": False, "tie": bool(hi_dl - lo_dl > 1e-9),
                               "nllSingle": c3["s"], "nllClosed": c3["c"], "dlSingle": c3["dS"], "dlClosed": c3["dC"], "nllPipe": NAN, "dlPipe": NAN})
                 meta.append((key, "labels %s: nll %.6f (closed form %.6f) DL %.6f (closed form in [%.6f, %.6f]) params %s; DL - nll - tree code %.6f (Trees!Code %s) = %.6f, closed-form parameter code %.6f" % (
